@@ -15,7 +15,10 @@ case kinds
       pydoctor's SphinxInventory and with sphinx.util.inventory.InventoryFile
       -> {"dump": subjects tree, "root_names": [...], "data": hex, "visible": [[fullName, url], ...],
           "pyd": {"exc","links","reports","answers"}, "sphinx": {"exc", "entries": [[type, name, uri, dispname], ...]},
-          "writer_errors": n, "build_exc": null|str}
+          "writer_errors": n, "build_exc": null|str, "registry_agrees": bool}
+      "visible": every object reachable through contents from system.rootobjects whose isVisible is true;
+      "registry_agrees": the same set is what system.allobjects holds (visible, attached) -- it is not when two root
+      modules share a name (System._handleDuplicateModule leaves the superseded module in rootobjects)
   {"k":"sweep3","head": hex, "first": int}
       all 65536 byte strings head + bytes([first, b2, b3]) -> summary {"n":..., "anomalies":[hex, ...]}
       anomaly = anything but (no exception, no links, exactly one 'Failed to uncompress' report)
@@ -155,13 +158,23 @@ def run_project(case):
                     sx['entries'].append([typ, name, item.uri, item.display_name])
         except BaseException as e:  # noqa
             sx['exc'] = type(e).__name__ + ': ' + str(e)[:200]
-        visible = [[o.fullName(), o.url] for o in system.allobjects.values() if o.isVisible and attached(system, o)]
+        # every object reachable through `contents` from the subjects (hidden ones included), kept when the real
+        # isVisible property says so -- not the writer's pruned recursion
+        reach = []
+        todo = list(reversed(system.rootobjects))
+        while todo:
+            o = todo.pop()
+            reach.append(o)
+            todo.extend(reversed(list(o.contents.values())))
+        visible = [[o.fullName(), o.url] for o in reach if o.isVisible]
+        registry = sorted(o.fullName() for o in system.allobjects.values() if o.isVisible and attached(system, o))
         return {
             'build_exc': None,
             'dump': [dump(o) for o in system.rootobjects],
             'root_names': list(system.root_names),
             'project': system.projectname, 'version': system.options.projectversion,
             'data': data.hex(), 'visible': visible, 'pyd': pyd, 'sphinx': sx,
+            'registry_agrees': registry == sorted(set(n for n, _ in visible)) and len(registry) == len(visible),
             'writer_errors': len([l for l in logs if l[0] == 'sphinx' and l[2] == -1]),
         }
     finally:
